@@ -126,7 +126,7 @@ class C07(Prop):
     pid = "C07"
     title = "headers"
     thm_modules = ["PeliteModel.Thm.C07", "PeliteModel.Thm.C07Checksum"]
-    gens = [gen_img.gen_c07_corpus, gen_img.gen_c07]
+    gens = [gen_img.gen_c07_corpus, gen_img.gen_c07, gen_img.gen_c07_boundaries]
 
     def nontrivial(self, op, impl):
         return impl.startswith("ok ")
